@@ -230,9 +230,17 @@ class Gen:
         r = self.r
         x = r.random()
         if not getattr(self, "ext", False) or x < 0.05:
+            first = not getattr(self, "ext_once", False)
             self.ext = True
+            self.ext_once = True
+            self.e_reset_next = first and r.random() < 0.5     # an E reset (often non-zero) before the very first move
             lh, nd, fd = r.choice([(0.2, 0.4, 1.75), (0.3, 0.6, 2.85), (0.1, 0.25, 1.75), (0.25, 0.8, 2.85)])
             return {"call": "add_extrusion_hook", "lh": lh, "nd": nd, "fd": fd}
+        if getattr(self, "e_reset_next", False):
+            self.e_reset_next = False
+            # "G92 X.. Y.. E..": the usual way to start a print from a known point
+            return {"call": "set_axis", "ax": [self.num(0, 10), self.num(0, 10), None] if r.random() < 0.7 else [None, None, None],
+                    "E": r.choice([12.5, 3.0, 0.0, 40.0])}
         if x < 0.12:
             return {"call": "set_extrusion_mode", "mode": r.choice(["absolute", "relative"])}
         if x < 0.2:
